@@ -25,6 +25,11 @@ structure Rec where
   resp : Nat
   out : String         -- ok | notfound | deleted | frozen | closed | panic | other
   res : List Nat := []
+  /-- add: the vector added under `id`; search: nothing -/
+  vec : Option F32.Vec := none
+  /-- search (kinds whose score is the metric distance): the queries and the scored hits -/
+  qs : List F32.Vec := []
+  scored : List (Nat × UInt32) := []
 
 structure St where
   kind : String
@@ -111,6 +116,33 @@ def judgeErrors (kind : String) (rs : List Rec) : List String × Nat :=
       else fail "spurious-error"
     | _ => if r.out == "ok" then acc else fail "spurious-error") ([], 0)
 
+/-- Scores (flat, IVF, HNSW, hybrid over flat; metric l2, default sum aggregation): every hit's
+    score must be the metric distance between the logged query and a vector the harness added
+    under that id — bit for bit (Comet.F32 replicates distance.go exactly).  With two queries
+    (one read-locked region each) a document may be seen by one or both: d₁, d₂ or d₁ + d₂.
+    A search overwritten by another goroutine's candidates (shared scratch memory) fails here. -/
+def scoreFail (rs : List Rec) : Option String :=
+  let vecsOf (id : Nat) : List F32.Vec := rs.filterMap fun r => if r.op == "add" && r.id == id then r.vec else none
+  let dist (q v : F32.Vec) : UInt32 := F32.b (F32.euclid q v)
+  let okHit (qs : List F32.Vec) (id : Nat) (sc : UInt32) : Bool :=
+    let vs := vecsOf id
+    vs.isEmpty ||   -- unknown id: V3 (phantom) is judged by the visibility check
+    vs.any fun v =>
+      match qs with
+      | [q] => dist q v == sc
+      | [q1, q2] =>
+        let d1 := dist q1 v
+        let d2 := dist q2 v
+        d1 == sc || d2 == sc || F32.b (F32.f d1 + F32.f d2) == sc
+      | _ => true
+  rs.findSome? fun r =>
+    if r.op != "search" || r.qs.isEmpty then none else
+    match r.scored.find? fun (id, sc) => !okHit r.qs id sc with
+    | some (id, sc) =>
+      let want := (vecsOf id).map fun v => r.qs.map fun q => hex32 (dist q v)
+      some s!"search g={r.g} @[{r.inv},{r.resp}] returned id {id} with score {hex32 sc}, the distance(s) to that document are {want}"
+    | none => none
+
 def dupOf : List Nat → Option Nat
   | [] => none
   | x :: xs => if xs.contains x then some x else dupOf xs
@@ -128,6 +160,9 @@ def judge (st : St) : String :=
       match errs with
       | e :: _ => s!"SPECFAIL no_spurious_error {e}"
       | [] =>
+        match scoreFail rs with
+        | some w => s!"SPECFAIL score_is_distance a search returned a score that is not the distance to that document: {w}"
+        | none =>
         match visFail st.kind h with
         | some w => s!"SPECFAIL lin_visibility {w}"
         | none =>
@@ -137,7 +172,8 @@ def judge (st : St) : String :=
           let ovw := writes.any fun a => writes.any fun b => a.g != b.g && overlaps a b
           let rem := rs.any fun r => r.op == "remove" && r.out == "ok"
           let ne := searches.any fun s => !s.res.isEmpty
-          let flags := s!"ops={rs.length} searches={searches.length} autoids={st.autoIds.length} " ++
+          let nscored := (searches.map (·.scored.length)).foldl (· + ·) 0
+          let flags := s!"ops={rs.length} searches={searches.length} autoids={st.autoIds.length} scoredhits={nscored} " ++
             s!"overlap_sw={if ov then 1 else 0} overlap_ww={if ovw then 1 else 0} removed={if rem then 1 else 0} nonempty={if ne then 1 else 0}"
           if known > 0 then s!"SPECFAIL no_spurious_error frozen={known}" else s!"ok {flags}"
 
@@ -153,25 +189,51 @@ def op (st : St) (toks : List String) : St × String :=
     | some id => ({ st with autoIds := id :: st.autoIds }, "ok")
     | none => ({ st with bad := some "autoid" }, "BADOP autoid")
   | "panic" :: _ => (st, "ok")   -- the runner classifies `op panic` lines itself
-  | [name, g, id, inv, resp] =>
+  | "search" :: g :: inv :: resp :: rest =>
+    match g.toNat?, inv.toNat?, resp.toNat? with
+    | some g, some inv, some resp =>
+      -- optional queries: hex vectors separated by ';'
+      let qs : Option (List F32.Vec) := match rest with
+        | [] => some []
+        | [q] => (q.splitOn ";").mapM parseVec
+        | _ => none
+      -- hits: `id` or `id:scorehex`, comma separated
+      let hits : Option (List (Nat × Option UInt32)) :=
+        if outc != "ok" then some [] else
+        match post with
+        | [_, "-"] => some []
+        | [_, ids] => (ids.splitOn ",").mapM fun t =>
+            match t.splitOn ":" with
+            | [i] => i.toNat?.map fun i => (i, none)
+            | [i, sc] => do pure ((← i.toNat?), some (← parseU32 sc))
+            | _ => none
+        | _ => none
+      match qs, hits with
+      | some qs, some hits =>
+        let scored := hits.filterMap fun (i, sc) => sc.map fun sc => (i, sc)
+        ({ st with recs := { g := g, op := "search", inv := inv, resp := resp, out := outc,
+                             res := hits.map (·.1), qs := qs, scored := scored } :: st.recs }, "ok")
+      | _, _ => ({ st with bad := some "search line" }, "BADOP search line")
+    | _, _, _ => ({ st with bad := some "search" }, "BADOP search")
+  | name :: g :: id :: inv :: resp :: rest =>
     match g.toNat?, id.toNat?, inv.toNat?, resp.toNat? with
     | some g, some id, some inv, some resp =>
       if !(["add", "remove"].contains name) then ({ st with bad := some name }, s!"BADOP {name}") else
-      ({ st with recs := { g := g, op := name, id := id, inv := inv, resp := resp, out := outc } :: st.recs }, "ok")
+      let vec : Option (Option F32.Vec) := match rest with
+        | [] => some none
+        | [v] => (parseVec v).map some
+        | _ => none
+      match vec with
+      | some vec =>
+        ({ st with recs := { g := g, op := name, id := id, inv := inv, resp := resp, out := outc, vec := vec } :: st.recs }, "ok")
+      | none => ({ st with bad := some "vector" }, "BADOP vector")
     | _, _, _, _ => ({ st with bad := some name }, s!"BADOP {name}")
   | [name, g, inv, resp] =>
     match g.toNat?, inv.toNat?, resp.toNat? with
     | some g, some inv, some resp =>
-      if !(["search", "flush", "write", "compact", "close", "rotate"].contains name) then
+      if !(["flush", "write", "compact", "close", "rotate"].contains name) then
         ({ st with bad := some name }, s!"BADOP {name}") else
-      let res : Option (List Nat) := if name == "search" && outc == "ok" then
-          (match post with
-           | [_, ids] => parseRes ids
-           | _ => none) else some []
-      match res with
-      | some res =>
-        ({ st with recs := { g := g, op := name, inv := inv, resp := resp, out := outc, res := res } :: st.recs }, "ok")
-      | none => ({ st with bad := some "search result" }, "BADOP search result")
+      ({ st with recs := { g := g, op := name, inv := inv, resp := resp, out := outc } :: st.recs }, "ok")
     | _, _, _ => ({ st with bad := some name }, s!"BADOP {name}")
   | _ => ({ st with bad := some "unknown" }, "BADOP unknown")
 
